@@ -1605,4 +1605,276 @@ theorem intersectsM_symm_multiPoint (cs : List Pt) (b : Geom) (h : prim b = true
   funext c
   exact beq_pt_comm _ _
 
+/-! ### 5. the DE-9IM specification against a Point right-hand side -/
+
+theorem IM.get_set (m : IM) (a b : Pos) (d : Dim) (X Y : Pos) :
+    (m.set a b d).get X Y = if a = X ∧ b = Y then d else m.get X Y := by
+  cases a <;> cases b <;> cases X <;> cases Y <;> simp [IM.set, IM.get]
+
+theorem Dim.rank_pos {d : Dim} (h : d ≠ .empty) : 0 < d.rank := by
+  cases d <;> simp [Dim.rank] at h ⊢
+
+theorem Dim.rank_eq_zero {d : Dim} (h : ¬ 0 < d.rank) : d = .empty := by
+  cases d <;> simp [Dim.rank] at h ⊢
+
+theorem IM.get_setAtLeast_ne_empty (m : IM) (a b : Pos) (d : Dim) (X Y : Pos) (hd : d ≠ .empty) :
+    (m.setAtLeast a b d).get X Y ≠ .empty ↔ m.get X Y ≠ .empty ∨ (a = X ∧ b = Y) := by
+  unfold IM.setAtLeast
+  by_cases hr : (m.get a b).rank < d.rank
+  · rw [if_pos hr, IM.get_set]
+    by_cases hab : a = X ∧ b = Y
+    · rw [if_pos hab]; simp [hd, hab]
+    · rw [if_neg hab]; simp [hab]
+  · rw [if_neg hr]
+    constructor
+    · intro h; exact Or.inl h
+    · rintro (h | ⟨h1, h2⟩)
+      · exact h
+      · subst h1; subst h2
+        intro he
+        rw [he] at hr
+        exact hr (Dim.rank_pos hd)
+
+theorem fold_get_ne_empty (L : List Atom) (m0 : IM) (X Y : Pos) (hd : ∀ a ∈ L, a.dim ≠ .empty) :
+    (L.foldl (fun m a => m.setAtLeast a.posA a.posB a.dim) m0).get X Y ≠ .empty ↔
+      m0.get X Y ≠ .empty ∨ ∃ a ∈ L, a.posA = X ∧ a.posB = Y := by
+  induction L generalizing m0 with
+  | nil => simp
+  | cons a t ih =>
+    rw [List.foldl_cons, ih _ (fun x hx => hd x (List.mem_cons_of_mem _ hx)),
+      IM.get_setAtLeast_ne_empty _ _ _ _ _ _ (hd a List.mem_cons_self)]
+    constructor
+    · rintro ((h | h) | ⟨x, hx, h⟩)
+      · exact Or.inl h
+      · exact Or.inr ⟨a, List.mem_cons_self, h⟩
+      · exact Or.inr ⟨x, List.mem_cons_of_mem _ hx, h⟩
+    · rintro (h | ⟨x, hx, h⟩)
+      · exact Or.inl (Or.inl h)
+      · rcases List.mem_cons.mp hx with e | e
+        · subst e; exact Or.inl (Or.inr h)
+        · exact Or.inr ⟨x, e, h⟩
+
+theorem mem_dedupPts {l : List Pt} {p : Pt} (h : p ∈ l) : p ∈ dedupPts l := by
+  unfold dedupPts
+  have key : ∀ (l : List Pt) (acc : List Pt), (p ∈ acc ∨ p ∈ l) →
+      p ∈ l.foldl (fun acc p => if acc.any (· == p) then acc else p :: acc) acc := by
+    intro l
+    induction l with
+    | nil => intro acc h; simpa using h
+    | cons q t ih =>
+      intro acc h
+      rw [List.foldl_cons]
+      apply ih
+      rcases h with h | h
+      · left
+        split
+        · exact h
+        · exact List.mem_cons_of_mem _ h
+      · rcases List.mem_cons.mp h with e | e
+        · left
+          subst e
+          split
+          · rename_i hany
+            obtain ⟨x, hx, hxe⟩ := List.any_eq_true.mp hany
+            have : x = p := by simpa using hxe
+            rw [← this]; exact hx
+          · exact List.mem_cons_self
+        · exact Or.inr e
+  exact key l [] (Or.inr h)
+
+/-- the atoms of one segment are midpoints (dim 1) and face samples (dim 2) -/
+theorem mem_segAtoms {pa pb : Parts} {verts : List Pt} {s : Pt × Pt} {x : Atom}
+    (h : x ∈ segAtoms pa pb verts s) :
+    (∃ m : Pt, x = ⟨.one, locateParts pa m, locateParts pb m⟩) ∨
+    (∃ l : EPt, x = ⟨.two, locateFace pa l, locateFace pb l⟩) := by
+  obtain ⟨a, b⟩ := s
+  unfold segAtoms at h
+  simp only at h
+  split at h
+  · cases h
+  · rw [List.mem_flatMap] at h
+    obtain ⟨⟨u, v⟩, _, hx⟩ := h
+    simp only at hx
+    split at hx
+    · cases hx
+    · simp only [List.mem_cons, List.not_mem_nil, or_false] at hx
+      rcases hx with e | e | e
+      · exact Or.inl ⟨_, e⟩
+      · exact Or.inr ⟨_, e⟩
+      · exact Or.inr ⟨_, e⟩
+
+/-- the atom list of `relateParts` -/
+def atomsOf (pa pb : Parts) : List Atom :=
+  let ss := (pa.allSegs ++ pb.allSegs)
+  let ends := ss.flatMap (fun (a, b) => [a, b])
+  let singles := (pa.curves ++ pb.curves ++ (pa.areas ++ pb.areas).flatMap Poly.rings).flatMap
+    (fun c => match c with | [p] => [p] | _ => [])
+  let verts := dedupPts (ends ++ singles ++ pa.pts ++ pb.pts ++ pairVertices ss)
+  let vAtoms : List Atom := verts.map (fun v => ⟨.zero, locateParts pa v, locateParts pb v⟩)
+  let sAtoms := ss.flatMap (segAtoms pa pb verts)
+  vAtoms ++ sAtoms
+
+theorem relateParts_eq (pa pb : Parts) :
+    relateParts pa pb =
+      ((atomsOf pa pb).foldl (fun m a => m.setAtLeast a.posA a.posB a.dim) IM.empty).set
+        .outside .outside .two := rfl
+
+/-- every atom is a vertex (dim 0), a midpoint (dim 1) or a face sample (dim 2), located in both
+operands -/
+theorem mem_atomsOf {pa pb : Parts} {x : Atom} (h : x ∈ atomsOf pa pb) :
+    (∃ v : Pt, x = ⟨.zero, locateParts pa v, locateParts pb v⟩) ∨
+    (∃ m : Pt, x = ⟨.one, locateParts pa m, locateParts pb m⟩) ∨
+    (∃ l : EPt, x = ⟨.two, locateFace pa l, locateFace pb l⟩) := by
+  unfold atomsOf at h
+  simp only at h
+  rcases List.mem_append.mp h with h | h
+  · obtain ⟨v, _, e⟩ := List.mem_map.mp h
+    exact Or.inl ⟨v, e.symm⟩
+  · obtain ⟨s, _, hx⟩ := List.mem_flatMap.mp h
+    exact Or.inr (mem_segAtoms hx)
+
+/-- the isolated points of both operands are vertices of the arrangement -/
+theorem vertex_atom_of_pt {pa pb : Parts} {c : Pt} (hc : c ∈ pb.pts) :
+    (⟨.zero, locateParts pa c, locateParts pb c⟩ : Atom) ∈ atomsOf pa pb := by
+  unfold atomsOf
+  simp only
+  apply List.mem_append_left
+  apply List.mem_map.mpr
+  refine ⟨c, mem_dedupPts ?_, rfl⟩
+  simp [hc]
+
+theorem atoms_dim_ne_empty {pa pb : Parts} {x : Atom} (h : x ∈ atomsOf pa pb) : x.dim ≠ .empty := by
+  rcases mem_atomsOf h with ⟨_, e⟩ | ⟨_, e⟩ | ⟨_, e⟩ <;> (rw [e]; simp)
+
+theorem locateParts_point (c v : Pt) :
+    locateParts ⟨[c], [], []⟩ v = if v = c then .inside else .outside := by
+  rw [locateParts_noAreas]
+  simp only [List.flatMap_nil, onAnySeg, List.any_nil, Bool.false_eq_true, if_false, List.any_cons,
+    Bool.or_false]
+  by_cases h : v = c
+  · subst h; simp
+  · have : ¬ c = v := fun e => h e.symm
+    simp [h, this]
+
+theorem locateFace_point (c : Pt) (l : EPt) : locateFace ⟨[c], [], []⟩ l = .outside := by
+  simp [locateFace]
+
+/-- cells of the specification matrix against a Point, columns Interior and Boundary of the point:
+the only atoms there are located at the point itself. -/
+theorem relate_point_cell (pa : Parts) (c : Pt) (X Y : Pos) (hY : Y ≠ .outside) :
+    (relateParts pa ⟨[c], [], []⟩).get X Y ≠ .empty ↔ (Y = .inside ∧ locateParts pa c = X) := by
+  rw [relateParts_eq, IM.get_set, if_neg (by tauto),
+    fold_get_ne_empty _ _ _ _ (fun a h => atoms_dim_ne_empty h)]
+  have h0 : IM.empty.get X Y = .empty := by cases X <;> cases Y <;> rfl
+  have hpt : ∀ v : Pt, locateParts pa v = X → locateParts ⟨[c], [], []⟩ v = Y →
+      Y = .inside ∧ locateParts pa c = X := by
+    intro v h1 h2
+    rw [locateParts_point] at h2
+    by_cases hv : v = c
+    · rw [if_pos hv] at h2; rw [← hv]; exact ⟨h2.symm, h1⟩
+    · rw [if_neg hv] at h2; exact absurd h2.symm hY
+  constructor
+  · rintro (h | ⟨x, hx, h1, h2⟩)
+    · exact absurd h0 h
+    · rcases mem_atomsOf hx with ⟨v, e⟩ | ⟨v, e⟩ | ⟨l, e⟩
+      · rw [e] at h1 h2; exact hpt v h1 h2
+      · rw [e] at h1 h2; exact hpt v h1 h2
+      · rw [e] at h2
+        simp only at h2
+        rw [locateFace_point] at h2
+        exact absurd h2.symm hY
+  · rintro ⟨hY', hX⟩
+    right
+    refine ⟨_, vertex_atom_of_pt (pa := pa) (pb := ⟨[c], [], []⟩) (c := c) (by simp), hX, ?_⟩
+    simp only
+    rw [locateParts_point, if_pos rfl, hY']
+
+/-- **`contains` against a Point, on the specification**: the mask `T*****FF*` on the DE-9IM
+specification of `(A, Point c)` holds exactly when `c` is located in the interior of `A`. -/
+theorem isContains_relate_point (a : Geom) (c : Pt) :
+    Gen.isContains (relateSpec a (.point c)) = (locate a c == .inside) := by
+  have hr : relateSpec a (.point c) = relateParts (parts a) ⟨[c], [], []⟩ := rfl
+  have hii := relate_point_cell (parts a) c .inside .inside (by decide)
+  have hei := relate_point_cell (parts a) c .outside .inside (by decide)
+  have heb := relate_point_cell (parts a) c .outside .onBoundary (by decide)
+  rw [hr]
+  unfold Gen.isContains locate
+  change ((relateParts (parts a) ⟨[c], [], []⟩).get .inside .inside != .empty &&
+    (relateParts (parts a) ⟨[c], [], []⟩).get .outside .inside == .empty &&
+    (relateParts (parts a) ⟨[c], [], []⟩).get .outside .onBoundary == .empty) = _
+  have e3 : (relateParts (parts a) ⟨[c], [], []⟩).get .outside .onBoundary = .empty := by
+    by_contra h
+    have := (heb.mp h).1
+    cases this
+  rw [e3]
+  cases hl : locateParts (parts a) c with
+  | inside =>
+    have e1 : (relateParts (parts a) ⟨[c], [], []⟩).get .inside .inside ≠ .empty := hii.mpr ⟨rfl, hl⟩
+    have e2 : (relateParts (parts a) ⟨[c], [], []⟩).get .outside .inside = .empty := by
+      by_contra h
+      have := (hei.mp h).2
+      rw [hl] at this; cases this
+    rw [e2]
+    simp [e1]
+  | onBoundary =>
+    have e1 : (relateParts (parts a) ⟨[c], [], []⟩).get .inside .inside = .empty := by
+      by_contra h
+      have := (hii.mp h).2
+      rw [hl] at this; cases this
+    rw [e1]; rfl
+  | outside =>
+    have e1 : (relateParts (parts a) ⟨[c], [], []⟩).get .inside .inside = .empty := by
+      by_contra h
+      have := (hii.mp h).2
+      rw [hl] at this; cases this
+    rw [e1]; rfl
+
+/-- **`intersects` against a Point, on the specification**: not `FF*FF****` exactly when `c` is
+not in the exterior of `A`. -/
+theorem isIntersects_relate_point (a : Geom) (c : Pt) :
+    Gen.isIntersects (relateSpec a (.point c)) = (locate a c != .outside) := by
+  have hr : relateSpec a (.point c) = relateParts (parts a) ⟨[c], [], []⟩ := rfl
+  have hii := relate_point_cell (parts a) c .inside .inside (by decide)
+  have hib := relate_point_cell (parts a) c .inside .onBoundary (by decide)
+  have hbi := relate_point_cell (parts a) c .onBoundary .inside (by decide)
+  have hbb := relate_point_cell (parts a) c .onBoundary .onBoundary (by decide)
+  rw [hr]
+  unfold Gen.isIntersects Gen.isDisjoint locate
+  change (!((relateParts (parts a) ⟨[c], [], []⟩).get .inside .inside == .empty &&
+    (relateParts (parts a) ⟨[c], [], []⟩).get .inside .onBoundary == .empty &&
+    (relateParts (parts a) ⟨[c], [], []⟩).get .onBoundary .inside == .empty &&
+    (relateParts (parts a) ⟨[c], [], []⟩).get .onBoundary .onBoundary == .empty)) = _
+  have e2 : (relateParts (parts a) ⟨[c], [], []⟩).get .inside .onBoundary = .empty := by
+    by_contra h
+    have := (hib.mp h).1
+    cases this
+  have e4 : (relateParts (parts a) ⟨[c], [], []⟩).get .onBoundary .onBoundary = .empty := by
+    by_contra h
+    have := (hbb.mp h).1
+    cases this
+  rw [e2, e4]
+  cases hl : locateParts (parts a) c with
+  | inside =>
+    have e1 : (relateParts (parts a) ⟨[c], [], []⟩).get .inside .inside ≠ .empty := hii.mpr ⟨rfl, hl⟩
+    have e1' : ((relateParts (parts a) ⟨[c], [], []⟩).get .inside .inside == .empty) = false := by
+      simpa using e1
+    rw [e1']; rfl
+  | onBoundary =>
+    have e1 : (relateParts (parts a) ⟨[c], [], []⟩).get .onBoundary .inside ≠ .empty := hbi.mpr ⟨rfl, hl⟩
+    have e1' : ((relateParts (parts a) ⟨[c], [], []⟩).get .onBoundary .inside == .empty) = false := by
+      simpa using e1
+    rw [e1']
+    simp only [Bool.not_false, Bool.and_true, Bool.not_and, Bool.or_true]
+    rfl
+  | outside =>
+    have e1 : (relateParts (parts a) ⟨[c], [], []⟩).get .inside .inside = .empty := by
+      by_contra h
+      have := (hii.mp h).2
+      rw [hl] at this; cases this
+    have e3 : (relateParts (parts a) ⟨[c], [], []⟩).get .onBoundary .inside = .empty := by
+      by_contra h
+      have := (hbi.mp h).2
+      rw [hl] at this; cases this
+    rw [e1, e3]; rfl
+
 end Geo.Proofs.Loc
